@@ -540,4 +540,125 @@ Proof.
   destruct (nbr_fit N RG s0 (m_rng m) (b_ds train) (b_rs train) cx) as [s1 g1]. cbn [fst shares_history] in *. intros _. exact Hc.
 Qed.
 
+
+(* ---- the chunked drivers coincide with the plain ones when a batch fits into one chunk (every ordinary simulation) -- *)
+Lemma chunk_bounds_single c n : (1 <= n)%nat -> (n <= c)%nat -> chunk_bounds (S n) c O n = [(O, n)].
+Proof.
+  intros H1 H2. cbn [chunk_bounds]. destruct (Nat.leb_spec n 0); [lia|].
+  replace (Nat.min (0 + Nat.max c 1) n) with n by lia.
+  destruct n as [|k]; [lia|]. cbn [chunk_bounds]. rewrite Nat.leb_refl. reflexivity.
+Qed.
+
+Lemma slice_all {T} (l : list T) : slice O (length l) l = l.
+Proof. unfold slice. rewrite Nat.sub_0_r. cbn [skipn]. apply firstn_all. Qed.
+
+Lemma cf_predict_n_ctx (m : mab) n orc : is_contextual (m_imp (fst (cf_predict_n N aeqb RG m n orc))) = is_contextual (m_imp m).
+Proof.
+  revert m. induction n as [|k IH]; intros m; [reflexivity|]. cbn [cf_predict_n].
+  pose proof (step_keeps_contextual m (Predict None orc)) as X.
+  destruct (step N aeqb RG m (Predict None orc)) as [m1 o]. cbn [fst] in X.
+  destruct (out_arms o) as [[|a [|b t]]|]; try exact X.
+  pose proof (IH m1) as Y. destruct (cf_predict_n N aeqb RG m1 k orc) as [m2 r]. cbn [fst] in *. congruence.
+Qed.
+
+Lemma cf_fix_query (old : sbandit * @report R A) dc cx n lo hi op oe :
+  let '(b', dc', r) := sim_query N aeqb RG (fst old) dc cx n lo hi op oe in
+  cf_fix old (b', report_app (snd old) r) = (b', report_app (snd old) r).
+Proof.
+  destruct old as [b rep]. cbn [fst snd]. destruct b as [m|s g bk]; cbn [sim_query].
+  - destruct (is_contextual (m_imp m)) eqn:Ec.
+    + pose proof (step_keeps_contextual m (Predict cx op)) as X1.
+      destruct (step N aeqb RG m (Predict cx op)) as [m1 o1]. cbn [fst] in X1.
+      pose proof (step_keeps_contextual m1 (PredictExp cx oe)) as X2.
+      destruct (step N aeqb RG m1 (PredictExp cx oe)) as [m2 o2]. cbn [fst] in X2.
+      unfold cf_fix. cbn [fst snd]. replace (is_contextual (m_imp m2)) with true by congruence. reflexivity.
+    + pose proof (cf_predict_n_ctx m n op) as X.
+      destruct (cf_predict_n N aeqb RG m n op) as [m1 r]. cbn [fst] in X.
+      unfold cf_fix. cbn [fst snd]. replace (is_contextual (m_imp m1)) with false by congruence.
+      destruct rep as [[p0 e0]|]; [|reflexivity]. destruct r as [p|]; reflexivity.
+  - destruct (if uses_cache s then _ else _) as [cache dc'].
+    destruct (simnbr_predict N aeqb RG s (k_quick bk) (stat_rewards s bk) g (octx cx) cache (o_knn op) (o_sizes op)) as [[l|] g1]; reflexivity.
+Qed.
+
+Lemma cf_fix_all_query (bs : list (sbandit * @report R A)) : forall dc cx n lo hi orcs,
+  cf_fix_all bs (report_all bs (sim_query_all N aeqb RG (map fst bs) dc cx n lo hi orcs))
+  = report_all bs (sim_query_all N aeqb RG (map fst bs) dc cx n lo hi orcs).
+Proof.
+  induction bs as [|old t IH]; intros dc cx n lo hi orcs; [reflexivity|].
+  cbn [map sim_query_all].
+  pose proof (cf_fix_query old dc cx n lo hi (fst (fst (hd borc0 orcs))) (snd (fst (hd borc0 orcs)))) as X.
+  destruct (sim_query N aeqb RG (fst old) dc cx n lo hi (fst (fst (hd borc0 orcs))) (snd (fst (hd borc0 orcs)))) as [[b' dc'] r].
+  cbn [report_all cf_fix_all]. rewrite X, IH. reflexivity.
+Qed.
+
+(* one chunk: the chunked batch step IS the plain batch step *)
+Theorem chunked_batch_single_chunk c (bs : list (sbandit * @report R A)) cx lo n o :
+  (1 <= n)%nat -> (n <= c)%nat -> cx_slice O n cx = cx ->
+  sim_batch_chunked N aeqb RG c bs cx lo n [o]
+  = report_all bs (sim_query_all N aeqb RG (map fst bs) [] cx n lo (lo + n) o).
+Proof.
+  intros H1 H2 Hcx. unfold sim_batch_chunked. rewrite (chunk_bounds_single c n H1 H2).
+  cbn [sim_chunk_loop hd tl]. rewrite Hcx, Nat.sub_0_r, Nat.add_0_r. apply cf_fix_all_query.
+Qed.
+
+Theorem offline_chunked_single_chunk c (bs : list (sbandit * @report R A)) (test : @batch R A) o :
+  (1 <= length (b_ds test))%nat -> (length (b_ds test) <= c)%nat -> cx_slice O (length (b_ds test)) (b_cx test) = b_cx test ->
+  sim_offline_chunked N aeqb RG c bs test [o] = sim_offline N aeqb RG bs test o.
+Proof.
+  intros H1 H2 Hcx. unfold sim_offline_chunked, sim_offline.
+  rewrite (chunked_batch_single_chunk c bs (b_cx test) O (length (b_ds test)) o H1 H2 Hcx). reflexivity.
+Qed.
+
+(* the online driver: every batch fits into one chunk *)
+Theorem online_chunked_single_chunks c (batches : list (@batch R A)) : forall (bs : list (sbandit * @report R A)) lo orcs,
+  Forall (fun bt => (1 <= length (b_ds bt) <= c)%nat /\ cx_slice O (length (b_ds bt)) (b_cx bt) = b_cx bt) batches ->
+  length orcs = length batches ->
+  sim_online_chunked N aeqb RG c bs lo batches (map (fun o => [o]) orcs) = sim_online N aeqb RG bs lo batches orcs.
+Proof.
+  induction batches as [|bt rest IH]; intros bs lo orcs Hall Hlen; [reflexivity|].
+  inversion Hall as [|? ? [[H1 H2] Hcx] Hrest]; subst.
+  destruct orcs as [|o orcs]; [discriminate|]. cbn [map sim_online_chunked sim_online hd tl].
+  rewrite (chunked_batch_single_chunk c bs (b_cx bt) lo (length (b_ds bt)) o H1 H2 Hcx).
+  apply IH; [exact Hrest | simpl in Hlen; lia].
+Qed.
+
+
+(* in a chunked run, too, the distance dictionary (a new one per chunk) never couples the bandits *)
+Fixpoint sim_chunk_loop_each (bs : list (sbandit * @report R A)) cx (lo : nat) (bounds : list (nat * nat)) (orcs : list (list (@borc R A))) :=
+  match bounds with
+  | [] => bs
+  | (a, b) :: t =>
+      sim_chunk_loop_each (report_all bs (sim_query_each (map fst bs) (cx_slice a b cx) (b - a) (lo + a) (lo + b) (hd [] orcs))) cx lo t (tl orcs)
+  end.
+
+Lemma sim_query_each_history H (bs : list sbandit) cx n lo hi orcs :
+  Forall (shares_history H) bs -> Forall (shares_history H) (map fst (sim_query_each bs cx n lo hi orcs)).
+Proof.
+  revert orcs. induction bs as [|b t IH]; intros orcs Hall; [constructor|].
+  inversion Hall as [|? ? Hb Ht]; subst. cbn [sim_query_each map]. constructor; [apply sim_query1_history; exact Hb | apply IH; exact Ht].
+Qed.
+
+Lemma report_all_fst (bs : list (sbandit * @report R A)) (q : list (sbandit * option (list (option A) * list exps))) :
+  length q = length bs -> map fst (report_all bs q) = map fst q.
+Proof.
+  revert q. induction bs as [|br t IH]; intros [|[b' r] q] Hl; simpl in *; try discriminate; [reflexivity|].
+  f_equal. apply IH. lia.
+Qed.
+
+Lemma sim_query_each_length (bs : list sbandit) cx n lo hi orcs : length (sim_query_each bs cx n lo hi orcs) = length bs.
+Proof. revert orcs. induction bs as [|b t IH]; intros orcs; [reflexivity|]. cbn [sim_query_each length]. rewrite IH. reflexivity. Qed.
+
+Theorem chunked_bandits_do_not_influence_each_other (bounds : list (nat * nat)) :
+  forall (bs : list (sbandit * @report R A)) cx lo orcs H,
+  Forall (shares_history H) (map fst bs) ->
+  sim_chunk_loop N aeqb RG bs cx lo bounds orcs = sim_chunk_loop_each bs cx lo bounds orcs.
+Proof.
+  induction bounds as [|[a b] t IH]; intros bs cx lo orcs H Hall; [reflexivity|].
+  cbn [sim_chunk_loop sim_chunk_loop_each].
+  rewrite (shared_cache_sound H (map fst bs) [] (cx_slice a b cx) (b - a) (lo + a) (lo + b) (hd [] orcs) Hall (dc_valid_nil H _)).
+  apply (IH _ _ _ _ H).
+  rewrite report_all_fst by (rewrite sim_query_each_length, map_length; reflexivity).
+  apply sim_query_each_history. exact Hall.
+Qed.
+
 End Drivers.
